@@ -17,12 +17,22 @@ constant expressions (immediates such as _MM_SHUFFLE(..) after preprocessing), i
 import os, re, struct, subprocess
 from . import core
 
-GEN_DIR = os.path.join(core.LEAN, "FastorModel", "Generated")
+GEN_DIR = os.environ.get("C08_GEN_DIR") or os.path.join(core.LEAN, "FastorModel", "Generated")
 ISAS = ["sse2", "avx2", "avx512"]
 
 REG_TYPES = {"__m128", "__m128d", "__m128i", "__m256", "__m256d", "__m256i", "__m512", "__m512d", "__m512i"}
-SCALAR_TYPES = {"int": "i32", "int32_t": "i32", "int64_t": "i64", "Int64": "i64", "long long": "i64", "float": "f32", "double": "f64"}
-LEAN_TY = {"R": "Reg", "i32": "BitVec 32", "f32": "BitVec 32", "i64": "BitVec 64", "f64": "BitVec 64"}
+SCALAR_TYPES = {"int": "i32", "int32_t": "i32", "int64_t": "i64", "Int64": "i64", "long long": "i64", "float": "f32", "double": "f64",
+                "uint64_t": "i64", "uint32_t": "i32", "int32_lane_t": "i32", "int64_lane_t": "i64"}
+LEAN_TY = {"mask": "Nat", "bool": "Bool", "R": "Reg", "i32": "BitVec 32", "f32": "BitVec 32", "i64": "BitVec 64", "f64": "BitVec 64", "C": "Reg × Reg", "P32": "Reg", "P64": "Reg"}
+TNAME = {"int32_t": "int32", "int": "int32", "int64_t": "int64", "Int64": "int64", "float": "float", "double": "double",
+         "std::complex<float>": "cfloat", "std::complex<double>": "cdouble"}
+def is_cplx(T): return T.startswith("std::complex")
+def reg_ctype(T, abi):
+    base = {"sse": "__m128", "avx": "__m256", "avx512": "__m512"}.get(abi)
+    if base is None: return None
+    if T in ("float", "std::complex<float>"): return base
+    if T in ("double", "std::complex<double>"): return base + "d"
+    return base + "i"
 KEYWORDS = {"at", "from", "fun", "end", "open", "then", "do", "show", "have", "in", "let", "if", "else", "by", "with", "match", "where", "def", "set",
             "instance", "structure", "class", "local", "section", "namespace", "variable", "universe", "theorem", "example", "abbrev", "private"}
 
@@ -59,6 +69,7 @@ def _tab():
     add("permute2f128_ps permute2f128_pd permute2f128_si256 permute2x128_si256", "permute2f128", "RRI", "R")
     add("permute4x64_pd permute4x64_epi64", "permute4x64", "RI", "R")
     add("permutexvar_epi32 permutexvar_ps", "permutexvar32", "RR", "R"); add("permutexvar_epi64 permutexvar_pd", "permutexvar64", "RR", "R")
+    add("permutex2var_ps permutex2var_epi32", "permutex2var32", "RRR", "R"); add("permutex2var_pd permutex2var_epi64", "permutex2var64", "RRR", "R")
     add("hadd_ps", "hadd_ps", "RR", "R", True); add("hadd_pd", "hadd_pd", "RR", "R", True)
     for op in "add sub mul div min max".split():
         add(op + "_ps", op + "_ps", "RR", "R", True); add(op + "_pd", op + "_pd", "RR", "R", True)
@@ -81,6 +92,19 @@ CAST_UP = re.compile(r"^cast(ps128_ps256|pd128_pd256|si128_si256)$")
 # scalar kind letters of the table: a=i32 b=i64 e=f32 g=f64
 LETTER = {"a": "i32", "b": "i64", "e": "f32", "g": "f64"}
 
+def intrin_ctype(name):
+    """C register type of the result of an intrinsic call (for overload resolution), or None"""
+    m = re.match(r"^_mm(256|512)?_(.*)$", name)
+    if not m: return None
+    width = m.group(1) or "128"; base = m.group(2)
+    mc = re.match(r"^cast(?:ps|pd|si)(\d+)?_(ps|pd|si)(\d+)?$", base)
+    if mc: width = mc.group(3) or width; suf = mc.group(2)
+    elif re.match(r"^extract[fi]128_", base): width = "128"; suf = base.split("_")[-1]
+    else: suf = base.split("_")[-1]
+    t = "" if suf in ("ps", "ss") else "d" if suf in ("pd", "sd") else "i" if re.match(r"^(epi\d+x?|epu\d+|si\d+)$", suf) else None
+    if t is None: return None
+    return "__m%s%s" % (width, t)
+
 class Untranslatable(Exception):
     pass
 
@@ -100,16 +124,25 @@ def tokenize(s):
     return out
 
 class Val:
-    __slots__ = ("kind", "text", "const", "fo")
-    def __init__(self, kind, text, const=None, fo=False):
-        self.kind = kind; self.text = text; self.const = const; self.fo = fo
+    __slots__ = ("kind", "text", "const", "fo", "ctype")
+    def __init__(self, kind, text, const=None, fo=False, ctype=None):
+        self.kind = kind; self.text = text; self.const = const; self.fo = fo; self.ctype = ctype
+
+def mkC(expr, fo=False):
+    """complex vector value from a Lean expression of type Reg × Reg"""
+    return Val("C", ("(%s).1" % expr, "(%s).2" % expr), fo=fo)
+def pairtext(v):
+    return "(%s, %s)" % (v.text[0], v.text[1])
 
 def lname(n):
     return ("v" + n) if (n.startswith("_") or n in KEYWORDS) else n
 
 class Parser:
-    def __init__(self, toks, env, funcs, cls):
-        self.t = toks; self.i = 0; self.env = env; self.funcs = funcs; self.cls = cls
+    def __init__(self, toks, env, funcs, cls, ctypes=None):
+        # cls: None or (T, abi) of the enclosing class
+        self.t = toks; self.i = 0; self.env = env; self.funcs = funcs; self.cls = cls; self.ctypes = ctypes or {}
+        self.aliases = env.get("@aliases", {})
+        self.cplx = bool(cls) and is_cplx(cls[0])
     def peek(self, k=0): return self.t[self.i + k] if self.i + k < len(self.t) else (None, None)
     def eat(self, v=None):
         tk = self.peek()
@@ -118,7 +151,16 @@ class Parser:
         self.i += 1; return tk
     def done(self): return self.i >= len(self.t)
 
-    def expr(self): return self.bor()
+    def expr(self):
+        a = self.bor()
+        if self.peek() in (("p", "<"), ("p", ">")):
+            op = self.eat()[1]; b = self.bor()
+            kinds = {a.kind, b.kind} - {"imm"}
+            if len(kinds) != 1 or kinds.copy().pop() not in ("i32", "i64"): raise Untranslatable("comparison of %s and %s" % (a.kind, b.kind))
+            k = kinds.pop(); a = self.coerce(a, k); b = self.coerce(b, k)
+            x, y = (a, b) if op == "<" else (b, a)
+            return Val("bool", "(BitVec.slt %s %s)" % (x.text, y.text), fo=a.fo or b.fo)
+        return a
     def _binc(self, sub, ops):
         a = sub()
         while self.peek()[1] in ops and self.peek()[0] == "p":
@@ -128,7 +170,7 @@ class Parser:
     def band(self): return self._binc(self.shift, ("&",))
     def shift(self): return self._binc(self.add, ("<<", ">>"))
     def add(self): return self._binc(self.mul, ("+", "-"))
-    def mul(self): return self._binc(self.unary, ("*",))
+    def mul(self): return self._binc(self.unary, ("*", "/"))
 
     def coerce(self, v, kind):
         """bring a literal to scalar kind"""
@@ -142,13 +184,20 @@ class Parser:
         if v.kind == "flit":
             if kind == "f32": return Val("f32", "%d#32" % _f32bits(v.const))
             if kind == "f64": return Val("f64", "%d#64" % _f64bits(v.const))
-        if v.kind == "V" and kind == "R": return Val("R", v.text, fo=v.fo)
+        if v.kind == "V" and kind == "R": return Val("R", v.text, fo=v.fo, ctype=v.ctype)
+        if v.kind == "R" and kind == "V": return Val("V", v.text, fo=v.fo, ctype=v.ctype)
         if v.kind == "i32" and kind == "i64": return Val("i64", "(BitVec.signExtend 64 %s)" % v.text, fo=v.fo)
         raise Untranslatable("cannot use a %s where a %s is needed (%s)" % (v.kind, kind, v.text))
 
     def binop(self, op, a, b):
+        if a.kind in ("P32", "P64") and b.kind == "imm" and op in "+-":
+            scale = 1 if a.kind == "P32" else 2
+            d = b.const if op == "+" else -b.const
+            if a.text[1] + d * scale < 0: raise Untranslatable("negative pointer offset")
+            return Val(a.kind, (a.text[0], a.text[1] + d * scale), ctype=a.ctype)
         if a.kind == "imm" and b.kind == "imm":
             x, y = a.const, b.const
+            if op == "/": raise Untranslatable("constant division")
             r = {"|": x | y, "&": x & y, "<<": x << y, ">>": x >> y, "+": x + y, "-": x - y, "*": x * y}[op]
             return Val("imm", str(r), r)
         if a.kind == "flit" and b.kind == "flit" and op in "+-*":
@@ -157,11 +206,12 @@ class Parser:
         kinds = {a.kind, b.kind} - {"imm", "flit"}
         if len(kinds) != 1: raise Untranslatable("operator %s on %s and %s" % (op, a.kind, b.kind))
         k = kinds.pop()
-        if k not in ("i32", "i64", "f32", "f64") or op not in "+-*": raise Untranslatable("operator %s on %s" % (op, k))
+        if k not in ("i32", "i64", "f32", "f64") or op not in "+-*/": raise Untranslatable("operator %s on %s" % (op, k))
         a = self.coerce(a, k); b = self.coerce(b, k)
         if k in ("i32", "i64"):
+            if op == "/": return Val(k, "(BitVec.sdiv %s %s)" % (a.text, b.text), fo=a.fo or b.fo)    # C++ signed division truncates towards zero
             return Val(k, "(%s %s %s)" % (a.text, op, b.text), fo=a.fo or b.fo)
-        fn = {"+": "add", "-": "sub", "*": "mul"}[op] + k[1:]
+        fn = {"+": "add", "-": "sub", "*": "mul", "/": "div"}[op] + k[1:]
         return Val(k, "(fo.%s %s %s)" % (fn, a.text, b.text), fo=True)
 
     def unary(self):
@@ -173,32 +223,72 @@ class Parser:
             raise Untranslatable("unary minus on %s" % v.kind)
         if tk == ("p", "+"):
             self.eat(); return self.unary()
+        if tk == ("p", "!"):
+            self.eat(); v = self.unary()
+            if v.kind != "bool": raise Untranslatable("! on %s" % v.kind)
+            return Val("bool", "(!%s)" % v.text, fo=v.fo)
+        if tk == ("p", "&"):
+            self.eat(); v = self.postfix()
+            if v.kind in ("R", "V") and re.match(r"^[A-Za-z_]\w*$", v.text): return Val("ADDR", v.text)
+            raise Untranslatable("address-of")
         if tk == ("p", "*"):
             self.eat()
             if self.peek() == ("id", "this"):
                 self.eat(); return self.selfval()
             raise Untranslatable("pointer dereference")
         if tk == ("p", "("):
+            # pointer cast (T*)e : the word memory is untyped
+            j = self.i + 1
+            while j < len(self.t) and self.t[j][0] == "id": j += 1
+            if j > self.i + 1 and j + 1 < len(self.t) and self.t[j] == ("p", "*") and self.t[j + 1] == ("p", ")"):
+                tyname = " ".join(t[1] for t in self.t[self.i + 1:j] if t[1] != "const")
+                save = self.i; self.i = j + 2
+                v = self.unary()
+                if v.kind in ("P32", "P64"):
+                    if v.kind == "PADDR" or v.ctype == "@addr":
+                        pass
+                    return v
+                if v.kind == "ADDR":
+                    # (T*)&reg : the lanes of a register seen as an array of T
+                    k, _ = parse_type(tyname + "*", self.cls) if tyname != "scalar_value_type" else (None, None)
+                    if tyname == "scalar_value_type" and self.cls: k = "P64" if self.cls[0] in ("double", "int64_t", "Int64") else "P32"
+                    if k in ("P32", "P64"): return Val(k, (v.text, 0), fo=v.fo, ctype=tyname)
+                    raise Untranslatable("cast of an address to %s*" % tyname)
+                self.i = save
             # cast?
             j = self.i + 1; names = []
             while j < len(self.t) and self.t[j][0] == "id": names.append(self.t[j][1]); j += 1
             if names and j < len(self.t) and self.t[j] == ("p", ")"):
                 ty = " ".join(n for n in names if n not in ("const", "unsigned", "signed"))
                 if ty in REG_TYPES or ty in ("__mmask8", "__mmask16", "uint8_t", "uint16_t"):
-                    self.i = j + 1; return self.unary()
+                    self.i = j + 1; v = self.unary()
+                    if ty in REG_TYPES and v.kind in ("R", "V"): v = Val(v.kind, v.text, fo=v.fo, ctype=ty)
+                    return v
                 if ty in SCALAR_TYPES:
                     self.i = j + 1; v = self.unary(); return self.coerce(v, SCALAR_TYPES[ty])
         return self.postfix()
 
     def selfval(self):
         if not self.cls: raise Untranslatable("*this outside a class")
-        return Val("V", "self")
+        if self.cplx: return Val("C", ("self_r", "self_i"))
+        return Val("V", "self", ctype=reg_ctype(*self.cls))
 
     def postfix(self):
         v = self.primary()
+        while self.peek() == ("p", "["):
+            self.eat(); ix = self.expr(); self.eat("]")
+            if v.kind not in ("P32", "P64") or ix.kind != "imm": raise Untranslatable("indexing")
+            name, off = v.text
+            if v.kind == "P32":
+                v = Val("f32" if v.ctype in ("float",) else "i32", "(%s %d)" % (name, off + ix.const))
+            else:
+                if (off % 2): raise Untranslatable("misaligned double index")
+                v = Val("f64" if v.ctype == "double" else "i64", "(lane64 %s %d)" % (name, off // 2 + ix.const))
         while self.peek() == ("p", "."):
             self.eat(); f = self.eat()[1]
-            if f == "value" and v.kind == "V": v = Val("R", v.text, fo=v.fo)
+            if f == "value" and v.kind == "V": v = Val("R", v.text, fo=v.fo, ctype=v.ctype)
+            elif f == "value_r" and v.kind == "C": v = Val("R", v.text[0], fo=v.fo)
+            elif f == "value_i" and v.kind == "C": v = Val("R", v.text[1], fo=v.fo)
             else: raise Untranslatable("member .%s" % f)
         return v
 
@@ -232,27 +322,100 @@ class Parser:
                         depth -= 1
                         if depth == 0: break
                 a = self.args()
+                if len(a) == 2 and all(x.kind in ("R", "V") for x in a):
+                    return Val("C", (a[0].text, a[1].text), fo=a[0].fo or a[1].fo)
+                if len(a) == 1 and a[0].kind == "C": return a[0]
                 if len(a) != 1 or a[0].kind not in ("R", "V"): raise Untranslatable("SIMDVector constructor call")
-                return Val("V", a[0].text, fo=a[0].fo)
+                return Val("V", a[0].text, fo=a[0].fo, ctype=a[0].ctype)
+            if v == "reinterpret_cast" and self.peek() == ("p", "<"):
+                names = []
+                self.eat("<")
+                while self.peek() != ("p", ">"): names.append(self.eat()[1])
+                self.eat(">"); self.eat("("); e = self.expr(); self.eat(")")
+                ty = " ".join(n for n in names if n not in ("const", "*"))
+                if e.kind in ("P32", "P64") and "*" in names:
+                    k = "P64" if ty in ("double", "int64_t", "uint64_t", "long long") else "P32"
+                    return Val(k, e.text, fo=e.fo, ctype=ty)
+                raise Untranslatable("reinterpret_cast to %s" % ty)
+            if v == "vector_type" and self.cls and self.peek() == ("p", "("):
+                a = self.args()
+                if self.cplx and len(a) == 2 and all(x.kind in ("R", "V") for x in a): return Val("C", (a[0].text, a[1].text), fo=a[0].fo or a[1].fo)
+                if len(a) == 1 and a[0].kind in ("C",): return a[0]
+                if len(a) == 1 and a[0].kind in ("R", "V") and not self.cplx: return Val("V", a[0].text, fo=a[0].fo, ctype=a[0].ctype)
+                raise Untranslatable("vector_type constructor call")
             if self.peek() == ("p", "("):
                 return self.call(v)
-            if v == "value" and self.cls: return Val("R", "self")
+            if v == "value" and self.cls and not self.cplx: return Val("R", "self", ctype=reg_ctype(*self.cls))
+            if v == "value_r" and self.cplx: return Val("R", "self_r", ctype=reg_ctype(*self.cls))
+            if v == "value_i" and self.cplx: return Val("R", "self_i", ctype=reg_ctype(*self.cls))
+            if v in self.aliases:
+                k, tgt, ct = self.aliases[v]; return Val(k, (tgt, 0), ctype=ct)
             if v in self.env:
-                k = self.env[v]; return Val(k, lname(v))
+                k = self.env[v]
+                if k in ("P32", "P64"): return Val(k, (lname(v), 0), ctype=self.ctypes.get(v))
+                if k == "C": return Val("C", (lname(v) + "_r", lname(v) + "_i"))
+                return Val(k, lname(v), ctype=self.ctypes.get(v))
             raise Untranslatable("unknown identifier %s" % v)
         raise Untranslatable("unexpected token %r" % (v,))
 
+    def resolve(self, name, a):
+        cands = [f for f in self.funcs[name] if len(f["kinds"]) == len(a)]
+        def kind_ok(x, k):
+            if k in ("R", "V"): return x.kind in ("R", "V")
+            if k == "C": return x.kind == "C"
+            if k in ("P32", "P64"): return x.kind in ("P32", "P64")
+            return x.kind in (k, "imm", "flit") or (x.kind == "i32" and k == "i64")
+        cands = [f for f in cands if all(kind_ok(x, k) for x, k in zip(a, f["kinds"]))]
+        if len(cands) > 1:
+            c2 = [f for f in cands if all(x.ctype is None or ct is None or x.ctype == ct for x, ct in zip(a, f["ctypes"]))
+                  and any(x.ctype is not None and x.ctype == ct for x, ct in zip(a, f["ctypes"]))]
+            if c2: cands = c2
+        if len(cands) != 1: raise Untranslatable("call of %s: %d candidate overloads" % (name, len(cands)))
+        return cands[0]
+
+    def call_translated(self, name, a):
+        f = self.resolve(name, a)
+        fo = any(x.fo for x in a) or f["fo"]
+        txt = []
+        for x, k in zip(a, f["kinds"]):
+            if k == "C": txt.append(pairtext(x))
+            elif k in ("P32", "P64"): txt.append(x.text[0] if x.text[1] == 0 else "(loadw %s %d)" % x.text)
+            else: txt.append(self.coerce(x, k if k != "V" else "R").text)
+        expr = "(%s%s%s)" % (f["lean"], " fo" if f["fo"] else "", "".join(" " + t for t in txt))
+        if f["ret"] == "C": return mkC(expr, fo), f
+        return Val(f["ret"], expr, fo=fo, ctype=f.get("retctype")), f
+
     def call(self, name):
+        v = self.call0(name)
+        if v.kind == "R" and v.ctype is None and name.startswith("_mm"): v.ctype = intrin_ctype(name)
+        return v
+
+    def call0(self, name):
         a = self.args()
         fo = any(x.fo for x in a)
         m = re.match(r"^_mm(256|512)?_(.*)$", name)
         base = m.group(2) if m else None
-        if name in self.funcs:                    # an already translated Fastor helper / member
-            f = self.funcs[name]
-            if len(a) != len(f["kinds"]): raise Untranslatable("arity of %s" % name)
-            txt = [self.coerce(x, k if k != "V" else "R").text for x, k in zip(a, f["kinds"])]
-            return Val(f["ret"], "(%s%s%s)" % (f["lean"], " fo" if f["fo"] else "", "".join(" " + s for s in txt)), fo=fo or f["fo"])
+        if name in self.funcs:                    # an already translated Fastor helper (possibly overloaded on the register type)
+            v, _ = self.call_translated(name, a)
+            return v
         if base is None: raise Untranslatable("call of %s (not translated)" % name)
+        if re.match(r"^loadu?_(ps|pd|si128|si256|si512|epi32|epi64)$", base):
+            if len(a) != 1 or a[0].kind not in ("P32", "P64"): raise Untranslatable("load from a non-pointer")
+            return Val("R", "(loadw %s %d)" % a[0].text, fo=fo)
+        mm_ = re.match(r"^maskload_(ps|pd|epi32|epi64)$", base)
+        if mm_:
+            if len(a) != 2 or a[0].kind not in ("P32", "P64"): raise Untranslatable("maskload arguments")
+            w64 = mm_.group(1) in ("pd", "epi64")
+            return Val("R", "(maskload%s (loadw %s %d) %s)" % ("64" if w64 else "32", a[0].text[0], a[0].text[1], self.coerce(a[1], "R").text), fo=fo)
+        mm_ = re.match(r"^mask_loadu?_(ps|pd|epi32|epi64)$", base)
+        if mm_:
+            if len(a) != 3 or a[2].kind not in ("P32", "P64") or a[1].kind not in ("imm", "mask"): raise Untranslatable("mask_load with a mask that is neither a constant nor a mask parameter")
+            w64 = mm_.group(1) in ("pd", "epi64")
+            ktxt = str(a[1].const) if a[1].kind == "imm" else a[1].text
+            return Val("R", "(kload%s %s %s (loadw %s %d))" % ("64" if w64 else "32", self.coerce(a[0], "R").text, ktxt, a[2].text[0], a[2].text[1]), fo=fo)
+        if base in ("load_ss", "load_sd"):
+            if len(a) != 1 or a[0].kind not in ("P32", "P64"): raise Untranslatable("load from a non-pointer")
+            return Val("R", "(loadw_%s %s %d)" % (base[-2:], a[0].text[0], a[0].text[1]), fo=fo)
         if CAST_ID.match(base):
             if len(a) != 1: raise Untranslatable("cast arity")
             return Val("R", self.coerce(a[0], "R").text, fo=fo)
@@ -279,8 +442,9 @@ MARK = "inline __attribute__((always_inline))"
 
 def preprocess(isa, repo=None):
     repo = repo or core.REPO
-    cmd = ["g++", "-std=c++14", "-E", "-P", "-O2", "-DFASTOR_VERIF"] + core.ISA_FLAGS[isa] + ["-I" + repo, os.path.join(repo, "Fastor", "simd_vector", "SIMDVector.h")]
-    p = subprocess.run(cmd, stdout=subprocess.PIPE, stderr=subprocess.PIPE, text=True, timeout=600)
+    cmd = ["g++", "-std=c++14", "-E", "-P", "-O2", "-DFASTOR_VERIF", "-x", "c++"] + core.ISA_FLAGS[isa] + ["-I" + repo, "-"]
+    src = '#include "Fastor/simd_vector/SIMDVector.h"\n#include "Fastor/simd_math/simd_math.h"\n#include "Fastor/backend/transpose/transpose_kernels.h"\n#include "Fastor/backend/dyadic.h"\n#include "Fastor/backend/norm.h"\n'
+    p = subprocess.run(cmd, input=src, stdout=subprocess.PIPE, stderr=subprocess.PIPE, text=True, timeout=600)
     if p.returncode != 0:
         raise RuntimeError("preprocessing failed for %s: %s" % (isa, p.stderr[-800:]))
     return p.stdout
@@ -297,7 +461,7 @@ def match_brace(s, i):
     return len(s)
 
 CLS_RE = re.compile(r"struct\s+SIMDVector<\s*([\w:<> ]+?)\s*,\s*simd_abi::(\w+)\s*>\s*\{")
-SIG_RE = re.compile(r"^(?P<ret>.*?)(?P<name>operator\s*\(\s*\)|operator\s*[^\s(\w]+|[A-Za-z_]\w*(?:<[^()]*>)?)\s*\((?P<params>[^()]*)\)\s*(?P<q>const)?\s*(?P<init>:.*)?$", re.S)
+SIG_RE = re.compile(r"^(?P<ret>.*?)(?P<name>operator\s*\(\s*\)|operator\s*[^\s(\w]+|[A-Za-z_]\w*(?:<[^()<>]*>)?)\s*\((?P<params>[^()]*)\)\s*(?P<q>const)?\s*(?P<init>:.*)?$", re.S)
 
 def scan(text):
     """yields dict(cls, ret, name, params, init, body, raw_sig) for every FASTOR_INLINE function after `namespace Fastor`"""
@@ -338,17 +502,30 @@ def scan(text):
 
 VEC_RE = re.compile(r"^(?:const\s+)?SIMDVector<\s*([\w:<> ]+?)\s*,\s*simd_abi::(\w+)\s*>\s*&?\s*$")
 
-def parse_type(t):
-    """-> kind ('R','V','i32',...) or None; for V also (T, abi)"""
+def parse_type(t, cls=None):
+    """-> (kind, info): kind 'R' (info = C register type), 'V' / 'C' (info = (T, abi)), scalar kinds, or None"""
     t = t.strip()
     t = re.sub(r"^const\s+", "", t).strip()
-    if t in REG_TYPES: return "R", None
+    if t in REG_TYPES: return "R", t
     if t in SCALAR_TYPES: return SCALAR_TYPES[t], None
+    if t == "bool": return "bool", None
+    if t in ("uint8_t", "uint16_t", "__mmask8", "__mmask16"): return "mask", None
+    mp = re.match(r"^(float|double|int32_t|int64_t|int|uint64_t|uint32_t|int32_lane_t|int64_lane_t)\s*\*\s*(?:__restrict__|__restrict)?$", t)
+    if mp: return ("P64" if mp.group(1) in ("double", "int64_t", "uint64_t", "int64_lane_t") else "P32"), mp.group(1)
+    if cls is not None:
+        mq = re.match(r"^scalar_value_type\s*\*$", t)
+        if mq and cls[0] in SCALAR_TYPES: return ("P64" if cls[0] in ("double", "int64_t", "Int64") else "P32"), cls[0]
+        if t == "vector_type": return ("C" if is_cplx(cls[0]) else "V"), cls
+        if t == "value_type": return "R", reg_ctype(*cls)
+        if t == "scalar_value_type" and cls[0] in SCALAR_TYPES: return SCALAR_TYPES[cls[0]], None
     m = VEC_RE.match(t)
-    if m: return "V", (m.group(1).strip(), m.group(2))
+    if m:
+        T = m.group(1).strip().replace(" ", "")
+        return ("C" if is_cplx(T) else "V"), (T, m.group(2))
     return None, None
 
-def parse_params(ps):
+def parse_params(ps, cls=None):
+    """-> [(name, kind, info, is_out)]"""
     out = []
     if not ps.strip(): return out
     depth = 0; cur = ""; parts = []
@@ -363,150 +540,366 @@ def parse_params(ps):
         m = re.match(r"^(.*?)([A-Za-z_]\w*)$", p, re.S)
         if not m: raise Untranslatable("parameter %r" % p)
         ty, nm = m.group(1).strip(), m.group(2)
+        ty = re.sub(r"\s*(__restrict__|__restrict)\s*", "", ty)
+        is_ref = ty.endswith("&"); is_const = ty.startswith("const")
         ty = ty.rstrip("&").strip()
-        kind, info = parse_type(ty)
+        kind, info = parse_type(ty, cls)
         if kind is None: raise Untranslatable("parameter type %r" % ty)
-        out.append((nm, kind, info))
+        out.append((nm, kind, info, (is_ref and not is_const and kind == "R") or (kind in ("P32", "P64") and not is_const)))
     return out
 
 OPNAMES = {"+": "add", "-": "sub", "*": "mul", "/": "div", "+=": "iadd", "-=": "isub", "*=": "imul", "/=": "idiv"}
-TNAME = {"int32_t": "int32", "int": "int32", "int64_t": "int64", "Int64": "int64", "float": "float", "double": "double"}
+
+FOR_RE = re.compile(r"for\s*\(\s*(?:FASTOR_INDEX|int|size_t|int32_t|unsigned long|unsigned)\s+(\w+)\s*=\s*(\d+)(?:UL|ul|u|U)?\s*;\s*\1\s*<\s*(\d+(?:\s*[-+]\s*\d+)*)(?:UL|ul|u|U)?\s*;\s*(?:\+\+\s*\1|\1\s*\+\+)\s*\)")
+
+def unroll(body):
+    """constant-bound `for (I i = lo; i < hi; ++i) BODY`  ->  BODY[i:=lo]; ...; BODY[i:=hi-1]"""
+    for _ in range(20):
+        ms = list(FOR_RE.finditer(body))
+        if not ms: return body
+        m = ms[-1]
+        var, lo, hi = m.group(1), int(m.group(2)), sum(int(t) for t in re.findall(r"[-+]?\d+", m.group(3).replace(" ", "")))
+        if hi - lo > 64: raise Untranslatable("loop with %d iterations" % (hi - lo))
+        rest = body[m.end():]
+        k = len(rest) - len(rest.lstrip())
+        if rest[k:k + 1] == "{":
+            e = match_brace(rest, k); inner = rest[k + 1:e - 1]; tail = rest[e:]
+        else:
+            e = rest.find(";", k)
+            if e < 0: raise Untranslatable("loop body")
+            inner = rest[k:e + 1]; tail = rest[e + 1:]
+        exp = "".join(re.sub(r"\b%s\b" % re.escape(var), str(i), inner) + ";" for i in range(lo, hi))
+        body = body[:m.start()] + exp + tail
+    raise Untranslatable("loop nesting")
+
+def lanes_of(info):
+    if not info or info[1] not in ("sse", "avx", "avx512") or info[0] not in TNAME: return None
+    w = 64 if info[0] in ("double", "int64_t", "Int64", "std::complex<double>") else 32
+    return {"sse": 128, "avx": 256, "avx512": 512}[info[1]] // w
 
 def split_statements(body):
-    if re.search(r"\b(for|while|if|else|switch|do|goto)\b", body):
+    if re.search(r"\b(for|while|else|switch|do|goto)\b", body):
         raise Untranslatable("control flow in the body")
-    if "[" in body: raise Untranslatable("array / pointer indexing in the body")
+    if re.search(r"\[[^\]]*[A-Za-z_][^\]]*\]", body): raise Untranslatable("array / pointer indexing with a non-constant index")
     return [s.strip() for s in body.split(";") if s.strip()]
+
+def kletter(k):
+    return {"V": "v", "C": "v", "R": "r", "bool": "b", "mask": "m", "P32": "p", "P64": "p"}.get(k, "s")
 
 def translate_function(f, funcs):
     """-> (lean_name, lean_text, meta) or raises Untranslatable"""
     cls = f["cls"]
-    if cls and cls[0] not in TNAME: raise Untranslatable("class %s is outside the grammar (complex: two registers)" % (cls[0],))
-    params = parse_params(f["params"])
+    if cls and cls[0] not in TNAME: raise Untranslatable("class %s is outside the grammar" % (cls[0],))
+    params = parse_params(f["params"], cls)
     name = f["name"]
     is_ctor = (name == "SIMDVector" and cls is not None)
-    # which class does a free function belong to?
     owner = cls
-    for (_, k, info) in params:
-        if k == "V" and owner is None: owner = info
-    retk, retinfo = parse_type(f["ret"]) if f["ret"] and not is_ctor else (None, None)
-    if owner is None and f["ret"]:
-        m = VEC_RE.match(f["ret"].strip())
-        if m: owner = (m.group(1).strip(), m.group(2))
+    for (_, k, info, _) in params:
+        if k in ("V", "C") and owner is None: owner = info
+    retk, retinfo = parse_type(f["ret"], cls) if f["ret"] and not is_ctor else (None, None)
+    if owner is None and retk in ("V", "C"): owner = retinfo
     if owner and owner[0] not in TNAME: raise Untranslatable("class %s is outside the grammar" % (owner[0],))
-    env = {}
-    lparams = []
+    cplx_cls = cls is not None and is_cplx(cls[0])
+    env = {}; ctypes = {}
+    lparams = []; prologue = []
     if cls is not None and not is_ctor:
-        lparams.append(("self", "R"))
-    for (nm, k, info) in params:
-        env[nm] = k; lparams.append((lname(nm), "R" if k == "V" else k))
+        if cplx_cls:
+            lparams.append(("self", "C")); prologue += [("self_r", "self.1"), ("self_i", "self.2")]
+        else:
+            lparams.append(("self", "R"))
+    outs = []
+    for (nm, k, info, is_out) in params:
+        env[nm] = k
+        if k in ("R", "P32", "P64"): ctypes[nm] = info
+        if k == "V": ctypes[nm] = reg_ctype(*info)
+        lparams.append((lname(nm), "R" if k == "V" else k))
+        if k == "C": prologue += [(lname(nm) + "_r", lname(nm) + ".1"), (lname(nm) + "_i", lname(nm) + ".2")]
+        if is_out: outs.append(nm)
     # name of the definition
     if owner:
         pre = "%s_%s" % (TNAME[owner[0]], owner[1])
+        ks = "".join(kletter(k) for (_, k, _, _) in params)
         if name.startswith("operator"):
             op = name[len("operator"):]
             if op not in OPNAMES: raise Untranslatable("operator %s" % op)
-            ks = "".join("v" if k == "V" else "r" if k == "R" else "s" for (_, k, _) in params)
             base = OPNAMES[op]
             if cls is None and len(params) == 1: base = {"add": "pos", "sub": "neg"}.get(base, base); ks = ""
             lean = "%s.%s%s" % (pre, base, ("_" + ks) if ks else "")
         elif is_ctor:
-            ks = "".join("v" if k == "V" else "r" if k == "R" else "s" for (_, k, _) in params)
             lean = "%s.ctor%s" % (pre, ("_" + ks) if ks else "")
         else:
             nm0 = re.sub(r"<.*$", "", name)
-            ks = "".join("v" if k == "V" else "r" if k == "R" else "s" for (_, k, _) in params)
             lean = "%s.%s%s" % (pre, nm0, ("_" + ks) if (ks and set(ks) != {"v"}) or (nm0 in ("set", "min", "max")) else "")
     else:
-        lean = name.lstrip("_") if name.startswith("_mm") else "h_" + name.lstrip("_")
+        lean = name.lstrip("_") if name.startswith("_mm") else "h_" + re.sub(r"\W+", "_", name.lstrip("_")).strip("_")
     # result kind
-    void_inplace = (f["ret"].strip() == "void" and cls is not None)
-    if is_ctor or void_inplace: ret_kind = "R"
+    void_ret = f["ret"].strip() == "void"
+    void_inplace = void_ret and cls is not None and not outs
+    if is_ctor or void_inplace: ret_kind = "C" if cplx_cls else "R"
+    elif void_ret and outs: ret_kind = "OUTS"
     elif retk == "V": ret_kind = "R"
-    elif retk in ("R", "i32", "i64", "f32", "f64"): ret_kind = retk
+    elif retk in ("R", "C", "i32", "i64", "f32", "f64"): ret_kind = retk
     else: raise Untranslatable("return type %r" % f["ret"])
-    lets = []; fo = [False]; result = [None]
+    lets = list(prologue); fo = [False]; result = [None]
     def ev(expr_text, want=None):
-        p = Parser(tokenize(expr_text), env, funcs, cls is not None)
+        p = Parser(tokenize(expr_text), env, funcs, cls, ctypes)
         v = p.expr()
         if not p.done(): raise Untranslatable("trailing tokens in %r" % expr_text[:60])
-        if want: v = p.coerce(v, want)
+        if want and not (want == "C" and v.kind == "C"): v = p.coerce(v, want)
         fo[0] = fo[0] or v.fo
         return v
+    def bind(nm, v):
+        """let-bind variable nm (C kind binds two names)"""
+        if v.kind == "C": lets.append((lname(nm) + "_r", v.text[0])); lets.append((lname(nm) + "_i", v.text[1]))
+        else: lets.append((lname(nm), v.text))
+    selfmod = [False]
     if is_ctor:
-        m = re.match(r"^:\s*value\((.*)\)$", f["init"], re.S)
-        if not m or f["body"].strip(): raise Untranslatable("constructor body")
-        result[0] = ev(m.group(1), "R").text
+        if cplx_cls:
+            m = re.match(r"^:\s*value_r\((.*)\)\s*,\s*value_i\((.*)\)$", f["init"], re.S)
+            if not m or f["body"].strip(): raise Untranslatable("constructor body")
+            r0 = ev(m.group(1), "R"); i0 = ev(m.group(2), "R"); result[0] = "(%s, %s)" % (r0.text, i0.text)
+        else:
+            m = re.match(r"^:\s*value\((.*)\)$", f["init"], re.S)
+            if not m or f["body"].strip(): raise Untranslatable("constructor body")
+            result[0] = ev(m.group(1), "R").text
     else:
-        stmts = split_statements(f["body"])
-        selfmod = False
-        for s in stmts:
+        body = f["body"]
+        N = lanes_of(cls or owner)
+        if N: body = re.sub(r"\bout\.size\(\)|\bSize\b|\bsize\(\)", str(N), body)
+        body = unroll(body)
+        body = re.sub(r"(if\s*\(\s*!?\s*\w+\s*\)\s*[^;{}]+);\s*else\s+", r"\1 @ELSE@ ", body)
+        stmts = split_statements(body)
+        env["@aliases"] = {}
+        def handle(s):
+            if re.match(r"^unused\s*\(.*\)$", s): return
             if result[0] is not None: raise Untranslatable("statement after return")
             m = re.match(r"^return\s+(.*)$", s, re.S)
             if m:
                 e = m.group(1).strip()
                 if e == "*this":
-                    if not selfmod: raise Untranslatable("return *this")
-                    result[0] = "self"; continue
-                v = ev(e, ret_kind); result[0] = v.text; continue
+                    if not selfmod[0]: raise Untranslatable("return *this")
+                    result[0] = "(self_r, self_i)" if cplx_cls else "self"; return
+                v = ev(e, ret_kind if ret_kind != "OUTS" else None)
+                result[0] = pairtext(v) if v.kind == "C" else v.text; return
+            # local arrays  T a[n], b[n]
+            m = re.match(r"^(?:alignas\s*\(\d+\)\s+|__attribute__\s*\(\(aligned\(\d+\)\)\)\s+)?(\w+)\s+(\w+\s*\[\d+\](?:\s*,\s*\w+\s*\[\d+\])*)$", s)
+            if m and parse_type(m.group(1) + "*", cls)[0] in ("P32", "P64"):
+                k, info = parse_type(m.group(1) + "*", cls)
+                for d in m.group(2).split(","):
+                    nm = re.match(r"\s*(\w+)", d).group(1); env[nm] = k; ctypes[nm] = info; lets.append((lname(nm), "junk"))
+                return
+            # pointer alias of a register  T *p = (T*)&reg
+            m = re.match(r"^(?:const\s+)?(\w+)\s*\*\s*(\w+)\s*=\s*(.*)$", s, re.S)
+            if m:
+                v = ev(m.group(3))
+                if v.kind in ("P32", "P64") and v.text[1] == 0:
+                    env["@aliases"][m.group(2)] = (v.kind, v.text[0], v.ctype); return
+                raise Untranslatable("statement %r" % s[:70])
+            # conditional assignment  if (c) x = e
+            m = re.match(r"^if\s*\((.*?)\)\s*([A-Za-z_]\w*)\s*=\s*(.*)$", s, re.S)
+            if m and m.group(2) in env and env[m.group(2)] in ("i32", "i64", "f32", "f64"):
+                c = ev(m.group(1))
+                if c.kind != "bool": raise Untranslatable("condition %r" % m.group(1)[:40])
+                e = ev(m.group(3), env[m.group(2)])
+                lets.append((lname(m.group(2)), "(if %s then %s else %s)" % (c.text, e.text, lname(m.group(2))))); return
+            if s.startswith("if"): raise Untranslatable("statement %r" % s[:70])
+            # array element (compound) assignment  a[k] op= e
+            m = re.match(r"^(\w+)\s*\[\s*(\d+)\s*\]\s*(=|\+=|-=|\*=|/=)\s*(.*)$", s, re.S)
+            if m and (m.group(1) in env and env[m.group(1)] in ("P32", "P64") or m.group(1) in env["@aliases"]):
+                cur = ev("%s[%s]" % (m.group(1), m.group(2)))
+                rhs = ev(m.group(4), cur.kind)
+                if m.group(3) != "=":
+                    rhs = Parser([], env, funcs, cls, ctypes).binop(m.group(3)[0], cur, rhs); fo[0] = fo[0] or rhs.fo
+                pv = ev(m.group(1)); tgt = pv.text[0]; k = int(m.group(2))
+                if pv.kind == "P32": lets.append((tgt, "(storew %s %d 1 (set1_32 %s))" % (tgt, k, rhs.text)))
+                else: lets.append((tgt, "(storew %s %d 2 (set1_64 %s))" % (tgt, 2 * k, rhs.text)))
+                if tgt == "self": selfmod[0] = True
+                return
+            # scalar compound assignment  x op= e
+            m = re.match(r"^([A-Za-z_]\w*)\s*(\+=|-=|\*=|/=)\s*(.*)$", s, re.S)
+            if m and m.group(1) in env and env[m.group(1)] in ("i32", "i64", "f32", "f64"):
+                k = env[m.group(1)]; cur = Val(k, lname(m.group(1))); rhs = ev(m.group(3), k)
+                r = Parser([], env, funcs, cls, ctypes).binop(m.group(2)[0], cur, rhs); fo[0] = fo[0] or r.fo
+                lets.append((lname(m.group(1)), r.text)); return
+            # declarations with initialiser
             m = re.match(r"^(?:static\s+)?(?:const\s+)?(SIMDVector<[^=]*?>|[A-Za-z_][\w ]*?)\s+([A-Za-z_]\w*)\s*=\s*(.*)$", s, re.S)
-            if m and parse_type(m.group(1))[0]:
-                k = parse_type(m.group(1))[0]; v = ev(m.group(3), "R" if k == "V" else k)
-                env[m.group(2)] = k; lets.append((lname(m.group(2)), v.text)); continue
+            if m and parse_type(m.group(1), cls)[0]:
+                k, info = parse_type(m.group(1), cls); v = ev(m.group(3), "R" if k == "V" else k)
+                env[m.group(2)] = k
+                if k == "R": ctypes[m.group(2)] = info
+                if k == "V": ctypes[m.group(2)] = reg_ctype(*info)
+                bind(m.group(2), v); return
             m = re.match(r"^(?:const\s+)?auto\s+([A-Za-z_]\w*)\s*=\s*(.*)$", s, re.S)
             if m:
                 v = ev(m.group(2)); k = "R" if v.kind == "V" else v.kind
                 if k not in LEAN_TY: raise Untranslatable("auto of kind %s" % k)
-                env[m.group(1)] = k; lets.append((lname(m.group(1)), v.text)); continue
-            m = re.match(r"^(SIMDVector<[^=]*?>)\s+([A-Za-z_]\w*)$", s, re.S)
-            if m and parse_type(m.group(1))[0] == "V":
-                env[m.group(2)] = "V"; lets.append((lname(m.group(2)), "setzero")); continue
-            m = re.match(r"^([A-Za-z_]\w*)(\.value)?\s*=\s*(.*)$", s, re.S)
+                env[m.group(1)] = k; bind(m.group(1), v); return
+            # declarations without initialiser (several declarators allowed): vectors start as zero, registers are undefined
+            m = re.match(r"^(SIMDVector<[^=(]*?>|vector_type|__m\d+[di]?)\s+([A-Za-z_]\w*(?:\s*,\s*[A-Za-z_]\w*)*)$", s, re.S)
+            if m and parse_type(m.group(1), cls)[0] in ("V", "C", "R"):
+                k, info = parse_type(m.group(1), cls)
+                for nm in [x.strip() for x in m.group(2).split(",")]:
+                    env[nm] = k
+                    if k == "C": lets.append((lname(nm) + "_r", "setzero")); lets.append((lname(nm) + "_i", "setzero"))
+                    elif k == "V": ctypes[nm] = reg_ctype(*info); lets.append((lname(nm), "setzero"))
+                    else: ctypes[nm] = info; lets.append((lname(nm), "junk"))
+                return
+            # copy construction  vector_type out(*this) / SIMDVector<..> out(expr)
+            m = re.match(r"^(SIMDVector<[^=(]*?>|vector_type)\s+([A-Za-z_]\w*)\((.*)\)$", s, re.S)
+            if m and parse_type(m.group(1), cls)[0] in ("V", "C"):
+                k, info = parse_type(m.group(1), cls); v = ev(m.group(3))
+                if k == "C" and v.kind != "C": raise Untranslatable("statement %r" % s[:70])
+                if k == "V": v = Parser([], env, funcs, cls, ctypes).coerce(v, "R"); ctypes[m.group(2)] = reg_ctype(*info)
+                env[m.group(2)] = k; bind(m.group(2), v); return
+            # store through a pointer:  _mm_storeu_ps(p + k, e)
+            m = re.match(r"^_mm(256|512)?_storeu?_(ps|pd|si128|si256|si512)\s*\((.*)\)$", s, re.S)
             if m:
-                nm = m.group(1)
-                if nm == "value" and cls is not None and not m.group(2):
-                    v = ev(m.group(3), "R"); lets.append(("self", v.text)); selfmod = True; continue
-                if nm in env and (env[nm] in ("R",) or (env[nm] == "V" and m.group(2))):
-                    v = ev(m.group(3), "R"); lets.append((lname(nm), v.text)); continue
-                if nm in env and env[nm] in ("i32", "i64", "f32", "f64") and not m.group(2):
-                    v = ev(m.group(3), env[nm]); lets.append((lname(nm), v.text)); continue
+                aa = split_args(m.group(3))
+                if len(aa) != 2: raise Untranslatable("store arity")
+                pv = ev(aa[0]); rv = ev(aa[1], "R")
+                if pv.kind not in ("P32", "P64"): raise Untranslatable("store through a non-pointer")
+                W = {None: 4, "256": 8, "512": 16}[m.group(1)]
+                lets.append((pv.text[0], "(storew %s %d %d %s)" % (pv.text[0], pv.text[1], W, rv.text))); return
+            m = re.match(r"^_mm(256|512)?_maskstore_(ps|pd|epi32|epi64)\s*\((.*)\)$", s, re.S)
+            if m:
+                aa = split_args(m.group(3))
+                if len(aa) != 3: raise Untranslatable("maskstore arity")
+                pv = ev(aa[0]); mk = ev(aa[1], "R"); rv = ev(aa[2], "R")
+                if pv.kind not in ("P32", "P64"): raise Untranslatable("store through a non-pointer")
+                W = {None: 4, "256": 8, "512": 16}[m.group(1)]
+                lets.append((pv.text[0], "(maskstore%s %s %d %d %s %s)" % ("64" if m.group(2) in ("pd", "epi64") else "32", pv.text[0], pv.text[1], W, mk.text, rv.text))); return
+            m = re.match(r"^_mm(256|512)?_mask_storeu?_(ps|pd|epi32|epi64)\s*\((.*)\)$", s, re.S)
+            if m:
+                aa = split_args(m.group(3))
+                if len(aa) != 3: raise Untranslatable("mask_store arity")
+                pv = ev(aa[0]); kv_ = ev(aa[1]); rv = ev(aa[2], "R")
+                if pv.kind not in ("P32", "P64") or kv_.kind not in ("imm", "mask"): raise Untranslatable("mask_store with a mask that is neither a constant nor a mask parameter")
+                W = {None: 4, "256": 8, "512": 16}[m.group(1)]
+                ktxt = str(kv_.const) if kv_.kind == "imm" else kv_.text
+                lets.append((pv.text[0], "(kstore%s %s %d %d %s %s)" % ("64" if m.group(2) in ("pd", "epi64") else "32", pv.text[0], pv.text[1], W, ktxt, rv.text))); return
+            # call statement of a helper with reference (in-out) parameters
+            m = re.match(r"^([A-Za-z_]\w*)\s*\((.*)\)$", s, re.S)
+            if m and m.group(1) in funcs:
+                p = Parser(tokenize(s), env, funcs, cls, ctypes)
+                p.eat(); a = p.args()
+                v, meta = p.call_translated(m.group(1), a)
+                if not p.done() or not meta.get("outs"): raise Untranslatable("statement %r" % s[:70])
+                fo[0] = fo[0] or v.fo
+                # the arguments in the out positions must be plain variables
+                toks_args = [t.strip() for t in split_args(m.group(2))]
+                tmp = "t%d" % len(lets)
+                lets.append((tmp, v.text))
+                for n_out, pos in enumerate(meta["outs"]):
+                    target = toks_args[pos]
+                    comp = ("%s.%d" % (tmp, n_out + 1)) if len(meta["outs"]) == 2 else tmp
+                    if len(meta["outs"]) > 2: raise Untranslatable("more than two reference parameters")
+                    if meta["kinds"][pos] in ("P32", "P64"):
+                        # the callee's memory is indexed from its pointer argument p + off: write it back at off
+                        pv = a[pos]
+                        if pv.kind not in ("P32", "P64"): raise Untranslatable("pointer argument")
+                        nm_, off_ = pv.text
+                        lets.append((nm_, comp if off_ == 0 else "(fun w => if %d ≤ w then %s (w - %d) else %s w)" % (off_, comp, off_, nm_)))
+                    elif not assign(target, Val("R", comp), env, lets, cls, cplx_cls, selfmod):
+                        raise Untranslatable("reference argument %r" % target[:30])
+                return
+            m = re.match(r"^([A-Za-z_]\w*)(\.value|\.value_r|\.value_i)?\s*=\s*(.*)$", s, re.S)
+            if m:
+                nm, mem = m.group(1), m.group(2)
+                tgt = nm + (mem or "")
+                kexp = None
+                if nm in env and not mem: kexp = env[nm] if env[nm] != "V" else "R"
+                v = ev(m.group(3), kexp if kexp in ("i32", "i64", "f32", "f64") else None)
+                if assign(tgt, v, env, lets, cls, cplx_cls, selfmod): return
             raise Untranslatable("statement %r" % s[:70])
+        for s in stmts:
+            mi = re.match(r"^if\s*\((!?\s*\w+)\)\s*(.*?)\s*@ELSE@\s*(.*)$", s, re.S)
+            if mi:
+                c = ev(mi.group(1))
+                if c.kind != "bool": raise Untranslatable("condition %r" % mi.group(1))
+                n0 = len(lets); handle(mi.group(2)); l1 = lets[n0:]; del lets[n0:]
+                handle(mi.group(3)); l2 = lets[n0:]; del lets[n0:]
+                if len(l1) != 1 or len(l2) != 1 or l1[0][0] != l2[0][0] or result[0] is not None: raise Untranslatable("if / else branches are not two assignments (stores) to the same target")
+                lets.append((l1[0][0], l1[0][1] if l1[0][1] == l2[0][1] else "(if %s then %s else %s)" % (c.text, l1[0][1], l2[0][1])))
+            else:
+                handle(s)
         if result[0] is None:
-            if void_inplace and selfmod: result[0] = "self"
+            if void_inplace and selfmod[0]: result[0] = "(self_r, self_i)" if cplx_cls else "self"
+            elif ret_kind == "OUTS" and len(outs) > 2:
+                result[0] = "fun r => [%s].getD r setzero" % ", ".join(lname(o) for o in outs)
+            elif ret_kind == "OUTS":
+                result[0] = lname(outs[0]) if len(outs) == 1 else "(%s)" % ", ".join(lname(o) for o in outs)
             else: raise Untranslatable("no result")
+    lean_ret = LEAN_TY[ret_kind] if ret_kind != "OUTS" else ("Reg" if len(outs) == 1 else "Reg × Reg" if len(outs) == 2 else "Nat → Reg")
     sig = "".join(" (%s : %s)" % (n, LEAN_TY[k]) for n, k in lparams)
-    lines = ["def %s%s%s : %s :=" % (lean, " (fo : FOps)" if fo[0] else "", sig, LEAN_TY[ret_kind])]
+    lines = ["def %s%s%s : %s :=" % (lean, " (fo : FOps)" if fo[0] else "", sig, lean_ret)]
     for n, t in lets: lines.append("  let %s := %s" % (n, t))
     lines.append("  " + result[0])
-    meta = {"lean": lean, "fo": fo[0], "kinds": [k for (_, k, _) in params], "ret": ret_kind, "cname": name, "owner": owner,
-            "self": cls is not None and not is_ctor}
+    meta = {"lean": lean, "fo": fo[0], "kinds": [k for (_, k, _, _) in params], "ctypes": [(i if k == "R" else None) for (_, k, i, _) in params],
+            "ret": ("ROWS" if (ret_kind == "OUTS" and len(outs) > 2) else "C" if (ret_kind == "OUTS" and len(outs) == 2) else "R" if ret_kind == "OUTS" else ret_kind),
+            "outs": [n for n, (nm, _, _, o) in enumerate(params) if o], "retctype": (retinfo if retk == "R" else None),
+            "cname": name, "owner": owner, "self": cls is not None and not is_ctor, "params": [(nm, k) for (nm, k, _, _) in params], "cls": cls, "cret": f["ret"].strip()}
     return lean, "\n".join(lines), meta
+
+def split_args(s):
+    out = []; d = 0; cur = ""
+    for c in s:
+        if c in "(<": d += 1
+        if c in ")>": d -= 1
+        if c == "," and d == 0: out.append(cur); cur = ""
+        else: cur += c
+    out.append(cur); return out
+
+def assign(tgt, v, env, lets, cls, cplx_cls, selfmod):
+    """assignment `tgt = v` (tgt: x | x.value | x.value_r | value | value_r ...).  Returns False when not understood"""
+    if "." in tgt: nm, mem = tgt.split(".", 1)
+    else: nm, mem = tgt, None
+    if cls is not None and mem is None and nm in ("value", "value_r", "value_i") and nm not in env:
+        if v.kind not in ("R", "V"): return False
+        if nm == "value" and not cplx_cls: lets.append(("self", v.text)); selfmod[0] = True; return True
+        if nm == "value_r" and cplx_cls: lets.append(("self_r", v.text)); selfmod[0] = True; return True
+        if nm == "value_i" and cplx_cls: lets.append(("self_i", v.text)); selfmod[0] = True; return True
+        return False
+    if nm not in env: return False
+    k = env[nm]
+    if k == "R" and mem is None and v.kind in ("R", "V"): lets.append((lname(nm), v.text)); return True
+    if k == "V" and (mem == "value" or mem is None) and v.kind in ("R", "V"): lets.append((lname(nm), v.text)); return True
+    if k == "C" and mem == "value_r" and v.kind in ("R", "V"): lets.append((lname(nm) + "_r", v.text)); return True
+    if k == "C" and mem == "value_i" and v.kind in ("R", "V"): lets.append((lname(nm) + "_i", v.text)); return True
+    if k == "C" and mem is None and v.kind == "C": lets.append((lname(nm) + "_r", v.text[0])); lets.append((lname(nm) + "_i", v.text[1])); return True
+    if k in ("i32", "i64", "f32", "f64") and mem is None and v.kind == k: lets.append((lname(nm), v.text)); return True
+    return False
 
 def translate(isa, repo=None):
     """-> (lean file text, report dict)"""
     text = preprocess(isa, repo)
     fns = scan(text)
-    funcs = {}; used = set(); defs = []; untranslated = []; translated = []
+    funcs = {}; used = set(); defs = []; untranslated = []; translated = []; metas = []
     for f in fns:
         nm = f["name"]
-        interesting = (f["cls"] is not None) or nm.startswith("_mm") or nm.startswith("_add") or nm in ("_addsub_ps", "_mulsub_ps", "_hsub_pd") \
+        interesting = (f["cls"] is not None) or nm.startswith("_mm") or nm.startswith("_add") or nm in ("_addsub_ps", "_mulsub_ps", "_hsub_pd", "arrange_from_load", "arrange_for_store") or nm.startswith("_MM_TRANSPOSE") or nm.startswith("_dyadic<") or nm.startswith("_norm<") \
             or "SIMDVector<" in f["params"] or "SIMDVector<" in f["ret"]
         if not interesting: continue
         if "T,ABI" in f["sig"].replace(" ", "") or "template" in f["ret"]: continue
+        if f["cls"] is not None and (f["cls"][0] in ("T", "std::complex<T>") or f["cls"][1] == "scalar"): continue   # class templates (scalar ABI): no intrinsic code
         label = ("%s<%s,%s>::" % ("SIMDVector", f["cls"][0], f["cls"][1]) if f["cls"] else "") + nm + "(" + f["params"] + ")"
         try:
             lean, txt, meta = translate_function(f, funcs)
             if lean in used:
-                k = 2
-                while "%s_%d" % (lean, k) in used: k += 1
-                txt = txt.replace("def " + lean, "def %s_%d" % (lean, k), 1); lean = "%s_%d" % (lean, k); meta["lean"] = lean
+                suffix = None
+                if f["cls"] is None and meta["owner"] is None:
+                    cts = [c for c in meta["ctypes"] if c]
+                    if cts: suffix = cts[0].lstrip("_")
+                cand = "%s_%s" % (lean, suffix) if suffix else None
+                if not cand or cand in used:
+                    k = 2
+                    while "%s_%d" % (lean, k) in used: k += 1
+                    cand = "%s_%d" % (lean, k)
+                txt = txt.replace("def " + lean, "def " + cand, 1); lean = cand; meta["lean"] = lean
             used.add(lean)
             if f["cls"] is None and meta["owner"] is None:
-                # free helper: callable from later bodies (overloads on register width share the C name only when the
-                # argument kinds agree; the first definition wins, later overloads are renamed and not callable)
-                funcs.setdefault(nm, meta)
+                funcs.setdefault(nm, []).append(meta)      # free helper: callable from later bodies, overloads resolved by register type
             defs.append("-- " + label + "\n" + txt)
-            translated.append(lean)
+            translated.append(lean); meta["label"] = label; metas.append(meta)
         except Untranslatable as e:
             defs.append("-- UNTRANSLATED %s: %s" % (label, e))
             untranslated.append((label, str(e)))
@@ -514,19 +907,26 @@ def translate(isa, repo=None):
             defs.append("-- UNTRANSLATED %s: translator error %s" % (label, e))
             untranslated.append((label, "translator error %s" % e))
     head = ("import FastorModel.Model.SimdIntrinsics\n"
-            "/-! GENERATED by vlib/xlate_simd.py (C08) from the preprocessed Fastor/simd_vector/SIMDVector.h, configuration `%s`.\n"
+            "/-! GENERATED by vlib/xlate_simd.py (C08) from the preprocessed Fastor/simd_vector/SIMDVector.h + simd_math/simd_math.h, configuration `%s`.\n"
             "    Regenerated on every `./check C08` run from the current repo tree; do not edit. -/\n"
             "set_option linter.unusedVariables false\n"
             "namespace Fastor.Gen.%s\nopen Fastor.Simd\n\n" % (isa, isa))
     body = "\n\n".join(defs)
-    return head + body + "\n\nend Fastor.Gen.%s\n" % isa, {"isa": isa, "translated": translated, "untranslated": untranslated}
+    return head + body + "\n\nend Fastor.Gen.%s\n" % isa, {"isa": isa, "translated": translated, "untranslated": untranslated, "metas": metas}
 
 def regenerate(isas=ISAS, repo=None, log=None):
     """writes Generated/Simd_<isa>.lean (only when the content changed).  Returns {isa: report}"""
     os.makedirs(GEN_DIR, exist_ok=True)
     reports = {}
     for isa in isas:
-        txt, rep = translate(isa, repo)
+        try:
+            txt, rep = translate(isa, repo)
+        except Exception as e:
+            # e.g. the headers do not preprocess: keep the previous file, never take a check down
+            reports[isa] = {"isa": isa, "translated": [], "untranslated": [], "metas": [], "changed": False, "error": "%s: %s" % (type(e).__name__, str(e)[:400]),
+                            "path": os.path.join(GEN_DIR, "Simd_%s.lean" % isa)}
+            if log is not None: log.append("xlate %s: FAILED (%s), previous file kept" % (isa, reports[isa]["error"][:120]))
+            continue
         p = os.path.join(GEN_DIR, "Simd_%s.lean" % isa)
         old = open(p).read() if os.path.exists(p) else None
         rep["changed"] = (old != txt)
